@@ -9,7 +9,7 @@ RULE = ("case = propagator-level model + entry point (enumerate / first solution
         "assignment the implementation yields must be in the brute-force solution set computed from the Coq `sat` over the declared "
         "domains, and the sequence must equal the extracted model's; non-trivial = at least one assignment yielded")
 FAMILIES = [
-    Family("entries_random", "solve", ec.gen_models(ec.entry_any, 3000, 600000), nontrivial=ec.nontrivial_solve, prop_judge=plevel.judge_solve),
+    Family("entries_random", "solve", ec.gen_models(ec.entry_any, 12000, 600000), nontrivial=ec.nontrivial_solve, prop_judge=plevel.judge_solve),
     Family("entries_structured", "solve", ec.structured, nontrivial=ec.nontrivial_solve, prop_judge=plevel.judge_solve),
 ]
 
